@@ -151,6 +151,8 @@ func runC19(c *Ctx) {
 			// a stage of a handler written as a method of its per-request context object
 			if r2 := w.bodyRoot(fn); isReq(r2) {
 				root = r2
+			} else if r3 := w.soleRequestRoot(fn, isReq); r3 != nil {
+				root = r3
 			}
 		}
 		if len(root.Params) > 0 && strings.HasSuffix(root.Params[0].Type().String(), "server.Request") {
@@ -341,6 +343,26 @@ func ruleTruthfulAddresses(c *Ctx, rule string) {
 						c.Bad(rule, fname(fn), "LIFETIME", pos, "the LIFETIME attribute sent is a value whose Duration is not set from the duration that arms/resets the allocation timer")
 					}
 					return
+				}
+				{
+					// a Lifetime that is never boxed into an attribute (a decode target given an
+					// explicit zero) reports nothing
+					sent := false
+					for _, r := range *al.Referrers() {
+						switch x := r.(type) {
+						case *ssa.MakeInterface, *ssa.Return:
+							sent = true
+						case *ssa.Store:
+							if x.Val == ssa.Value(al) {
+								sent = true
+							}
+						case *ssa.UnOp:
+							sent = true // copied as a value: may be sent from the copy
+						}
+					}
+					if !sent {
+						return
+					}
 				}
 				c.Anchor(rule, fname(fn)+" lifetime")
 				// the same value must be the lifetime argument of CreateAllocation / Refresh
@@ -615,4 +637,49 @@ func sliceHasElem(sl ssa.Value, elem ssa.Value) bool {
 		}
 	}
 	return false
+}
+
+// soleRequestRoot: the one request-handling function from which every static call chain to
+// the unexported helper fn starts (stages of a handler that are called from several places of
+// it, and from each other); nil when there is none or more than one.
+func (w *World) soleRequestRoot(fn *ssa.Function, isReq func(*ssa.Function) bool) *ssa.Function {
+	var root *ssa.Function
+	seen := map[*ssa.Function]bool{}
+	var up func(f *ssa.Function, d int) bool
+	up = func(f *ssa.Function, d int) bool {
+		if isReq(f) {
+			if root != nil && root != f {
+				return false
+			}
+			root = f
+			return true
+		}
+		if seen[f] {
+			return true
+		}
+		seen[f] = true
+		if d > 4 || f.Parent() != nil || w.fnUsedAsValue()[f] {
+			return false
+		}
+		if obj := f.Object(); obj == nil || obj.Exported() {
+			return false
+		}
+		node := w.CG.Nodes[f]
+		if node == nil || len(node.In) == 0 {
+			return false
+		}
+		for _, e := range node.In {
+			if e.Site == nil || e.Site.Common().StaticCallee() != f || !w.IsMod[e.Caller.Func] {
+				return false
+			}
+			if !up(e.Caller.Func, d+1) {
+				return false
+			}
+		}
+		return true
+	}
+	if !up(fn, 0) {
+		return nil
+	}
+	return root
 }
